@@ -54,6 +54,7 @@ typedef struct {
     long m, n, nnz, nrhs, nprocs; int colperm; long ienv[8];
     double thresh; int usepr, symmetric, fact, trans; long ldb, ldx, createfail;
     long pseed; double pprob; long pmaxus;      /* perturbation */
+    long stall_p, stall_k, stall_us;            /* worker stall_p sleeps stall_us microseconds at each of its first stall_k pivot searches */
     int trace, dump_lu, destroy; unsigned timeout;
     long *colptr, *rowind, *permc, *permr; double *vals, *rhs, *rhs2; int trans2; void *permc_used; long *etree_out;
 } case_t;
@@ -115,6 +116,16 @@ static void verif_cb(int ev, long pnum, long a, long b, long c, const void *p)
     if (!cb_on) return;
     switch (ev) {
     case SLU_VEV_PIVOT_IN:
+        if (cur_case && cur_case->stall_k > 0 && pnum == cur_case->stall_p) {
+            /* a long stall of ONE worker while it holds a busy panel (a descheduled thread): whoever waits for its columns
+               has to keep waiting, however long it takes */
+            static __thread long tl_stall_case = -1, tl_stalls = 0;
+            if (tl_stall_case != cur_case->id) { tl_stall_case = cur_case->id; tl_stalls = 0; }
+            if (tl_stalls < cur_case->stall_k) {
+                struct timespec ts = { cur_case->stall_us / 1000000, (cur_case->stall_us % 1000000) * 1000 };
+                tl_stalls++; nanosleep(&ts, NULL);
+            }
+        }
         if (cur_case && (cur_case->trace & 2)) {
             const void * const *vrec = (const void * const *) p;
             const int_t *lsub_ptr = (const int_t *) vrec[0]; const ELT *col = (const ELT *) vrec[1]; const int_t *vn = (const int_t *) vrec[2];
@@ -371,6 +382,7 @@ int main(void)
         else if (!strcmp(key, "fact")) c.fact = atoi(rest);
         else if (!strcmp(key, "trans")) c.trans = atoi(rest);
         else if (!strcmp(key, "perturb")) sscanf(rest, "%ld %lf %ld", &c.pseed, &c.pprob, &c.pmaxus);
+        else if (!strcmp(key, "stall")) sscanf(rest, "%ld %ld %ld", &c.stall_p, &c.stall_k, &c.stall_us);
         else if (!strcmp(key, "trace")) c.trace = atoi(rest);
         else if (!strcmp(key, "dumplu")) c.dump_lu = atoi(rest);
         else if (!strcmp(key, "timeout")) c.timeout = (unsigned) atoi(rest);
